@@ -40,6 +40,8 @@ RULE = ('correspondence: (a) FST._put_src on a real root, exhaustively over smal
         'its line, judged by byte-identical text outside the element and by tree == fresh parse after each step; accessor '
         'histories: reads of .loc/.bloc/.src of every ancestor, then put_line_comment (longer / shorter / None / full) / put_docstr / '
         'par / unpar on a nested statement, then cut / remove / replace of an enclosing statement on the same live tree; option '
+        'empty blocks: pure insertion into every empty orelse / finalbody / handlers x 12 endings of the preceding statement (`;`, comments, '
+        'continuations) x 8 following trivia shapes x 4 nestings x 3 tails, every comment and original line must survive; '
         'channels: deterministic product of replace / remove / insert / slice delete / cut / copy x trivia, pep8space, docstr, elif_, '
         'pars values, each per call, in FST.options() and after FST.set_options(): equal outcomes), judged with tokenize and '
         'line comparison only. distinct = distinct inputs; non-trivial = output differs from input')
@@ -360,6 +362,9 @@ def _run_sweep(ctx, progs, per):
     res = pmap(co.edit_cases, [(p, ctx.rng.randrange(1 << 30), per) for p in progs])
     # two-step histories (replace an expression by a call, then edit a child of the new node), multi-byte text before the target
     res += pmap(co.two_step_cases, [(p, ctx.rng.randrange(1 << 30), max(3, per // 2)) for p in progs])
+    # pure insertion into every empty optional block x decorations of the preceding last statement x nesting (whole product)
+    eb = co.empty_block_programs()
+    res += pmap(co.empty_block_cases, [eb[i::32] for i in range(32)])
     # histories with trivia-changing accessors between cache-filling reads and structural edits of the enclosing blocks
     res += pmap(co.history_cases, [(p, ctx.rng.randrange(1 << 30), max(2, per // 4)) for p in progs[:len(progs) * 2 // 3 if ctx.quick else len(progs) // 3] + co.HAND_PROGRAMS])
     # every trivia-related option through all three channels (per call / FST.options() / FST.set_options()): same outcome
@@ -416,6 +421,6 @@ def replay(ctx, data):
                 ctx.fail('replay', '_put_src result is not the flat-text splice', w)
         return
     op = w['edit'].get('op')
-    it = (co.run_two_step if op == 'replace2' else co.run_history if op == 'history' else co.run_channels if op == 'channels' else co.run_edit)(w['src'], w['edit'])
+    it = (co.run_two_step if op == 'replace2' else co.run_history if op == 'history' else co.run_channels if op == 'channels' else co.run_empty_block if op == 'insert-empty' else co.run_edit)(w['src'], w['edit'])
     for sig, what, wit in co.classify(it):
         ctx.fail(sig, what, w)
